@@ -20,8 +20,16 @@ import (
 	"github.com/csgura/fp/seq"
 )
 
-// sentinel errors: 0..3 are the failure results of the sources, 4..7 are produced inside trees
-var errs = []error{errors.New("e0"), errors.New("e1"), errors.New("e2"), errors.New("e3"), errors.New("e4"), errors.New("e5"), errors.New("e6"), errors.New("e7")}
+// sentinel errors: 0..3 are the failure results of the sources, 4..7 are produced inside
+// trees, 8 is the poison written into tampered inputs, 9.. belong to the sources of wide trees
+// (layout: ref.go srcErr)
+var errs = func() []error {
+	out := make([]error, numErrs)
+	for i := range out {
+		out[i] = errors.New("e" + strconv.Itoa(i))
+	}
+	return out
+}()
 
 func panicVal(k int) string { return "boom-" + strconv.Itoa(k) }
 
@@ -163,10 +171,24 @@ type B struct {
 	dupK  string
 	insts []*inst
 	hits  map[string]int
+
+	memoOn bool // dag trees: remember the future of every node instance for "ref" leaves
+	memo   map[string]fp.Future[int]
+
+	// capture scenarios (capture.go)
+	tamper      bool                    // run the tamper scripts
+	onClone     bool                    // control run: the scripts act on a clone of the input object, the library's input is left alone
+	pendingAt   func(*Node, []int) bool // staged mode: is the reference of this instance still pending?
+	deferred    []func()                // tamper actions to run at the next quiescent point
+	tlog        []string                // what the harness did to caller-owned inputs
+	leftoverN   *Node                   // a single-use iterator still had elements after the call returned
+	leftoverMsg string
+	synthID     int
+	cnt         map[string]int64
 }
 
 func newB(w *vrt.W, nsrc int) *B {
-	b := &B{w: w, q: &queueExec{}, calls: map[string]int{}, hits: map[string]int{}}
+	b := &B{w: w, q: &queueExec{}, calls: map[string]int{}, hits: map[string]int{}, memo: map[string]fp.Future[int]{}, cnt: map[string]int64{}, synthID: 100000}
 	for i := 0; i < nsrc; i++ {
 		b.src = append(b.src, fp.NewPromise[int]())
 	}
@@ -257,11 +279,34 @@ func (b *B) args(n *Node, env []int) []int {
 }
 
 func (b *B) build(n *Node, env []int) fp.Future[int] {
-	f := b.build0(n, env)
+	var f fp.Future[int]
+	if n.Fam == "ref" {
+		// second use of an existing future: nothing is built
+		b.mu.Lock()
+		g, ok := b.memo[fmt.Sprint(n.RefID, env[:len(env)-n.K])]
+		b.mu.Unlock()
+		if !ok {
+			panic(fmt.Sprintf("harness: node #%d refers to #%d which has not been built in env %v", n.ID, n.RefID, env[:len(env)-n.K]))
+		}
+		f = g
+	} else {
+		f = b.build0(n, env)
+	}
+	b.mu.Lock()
+	b.insts = append(b.insts, &inst{n: n, env: env, f: f})
+	if b.memoOn && n.Fam != "ref" {
+		b.memo[fmt.Sprint(n.ID, env)] = f
+	}
+	b.mu.Unlock()
+	return f
+}
+
+// addInst registers a future built by the harness outside the tree (second call on a
+// re-used input object) together with the synthetic node that describes it.
+func (b *B) addInst(n *Node, env []int, f fp.Future[int]) {
 	b.mu.Lock()
 	b.insts = append(b.insts, &inst{n: n, env: env, f: f})
 	b.mu.Unlock()
-	return f
 }
 
 func fold(k int) func(s fp.Seq[int]) int { return func(s fp.Seq[int]) int { return w31(k, s...) } }
@@ -290,6 +335,8 @@ func (b *B) build0(n *Node, env []int) fp.Future[int] {
 	switch n.Fam {
 	case "src":
 		return b.src[k].Future()
+	case "srcidx":
+		return b.src[env[len(env)-1-k]%n.N].Future()
 	case "Successful":
 		return future.Successful(k)
 	case "Failed":
@@ -408,10 +455,10 @@ func (b *B) build0(n *Node, env []int) fp.Future[int] {
 		s := future.Map(k0, func(v int) []int { return seqOf(v, n.N) })
 		return future.Map(future.MapSliceLift(s, func(x int) int { b.call(n, 0, env, []int{x}); return w31(k, x) }, ex...), func(s []int) int { return w31(k+1, s...) })
 	case "FlatMapTraverseSeq":
-		s := future.Map(k0, func(v int) fp.Seq[int] { return seqOf(v, n.N) })
+		s := future.Map(k0, func(v int) fp.Seq[int] { return b.deferTamperInts(n, env, roomy(seqOf(v, n.N))) })
 		return future.Map(future.FlatMapTraverseSeq(s, elemBody, ex...), fold(k))
 	case "FlatMapTraverseSlice":
-		s := future.Map(k0, func(v int) []int { return seqOf(v, n.N) })
+		s := future.Map(k0, func(v int) []int { return b.deferTamperInts(n, env, roomy(seqOf(v, n.N))) })
 		return future.Map(future.FlatMapTraverseSlice(s, elemBody, ex...), func(s []int) int { return w31(k, s...) })
 	case "Map2":
 		return future.Map2(k0, kids[1], func(x, y int) int { return b.pure(n, 0, env, x, y) }, ex...)
@@ -469,42 +516,76 @@ func (b *B) build0(n *Node, env []int) fp.Future[int] {
 		}, body0, ex...)(n.Args[0].val(env))
 	case "ComposePure":
 		return future.ComposePure(f1, ex...)(n.Args[0].val(env))
+	// The list-shaped combinators: the input object (slice / fp.Seq / iterator / list) is
+	// owned by the caller, i.e. by the harness, which goes on using it after the call
+	// returned when the node carries a tamper script (capture.go). The reference is computed
+	// from the node, i.e. from the inputs as they were at the call.
 	case "Sequence":
-		return future.Map(future.Sequence(kids, ex...), func(s []int) int { return w31(k, s...) })
+		in := roomy(kids)
+		r := future.Sequence(in, ex...)
+		b.tamperFutSlice(n, env, own(b, n, in))
+		return future.Map(r, func(s []int) int { return w31(k, s...) })
 	case "SequenceIterator":
-		return future.Map(future.SequenceIterator(iterator.FromSeq(kids), ex...), func(it fp.Iterator[int]) int { return w31(k, it.ToSeq()...) })
+		sh, it := newShared(kids)
+		r := future.SequenceIterator(it, ex...)
+		sh, it = ownIter(b, n, sh, it)
+		b.tamperFutIter(n, env, sh, it)
+		return future.Map(r, func(it fp.Iterator[int]) int { return w31(k, it.ToSeq()...) })
 	case "Traverse", "TraverseFunc":
-		elems := seqOf(n.Args[0].val(env), n.N)
+		sh, it := newShared(seqOf(n.Args[0].val(env), n.N))
 		var r fp.Future[fp.Iterator[int]]
 		if n.Fam == "Traverse" {
-			r = future.Traverse(iterator.FromSeq(elems), elemBody, ex...)
+			r = future.Traverse(it, elemBody, ex...)
 		} else {
-			r = future.TraverseFunc(elemBody, ex...)(iterator.FromSeq(elems))
+			r = future.TraverseFunc(elemBody, ex...)(it)
 		}
+		sh, it = ownIter(b, n, sh, it)
+		b.tamperIntIter(n, env, sh, it)
 		return future.Map(r, func(it fp.Iterator[int]) int { return w31(k, it.ToSeq()...) })
 	case "TraverseSeq", "TraverseSeqFunc":
-		elems := fp.Seq[int](seqOf(n.Args[0].val(env), n.N))
+		elems := fp.Seq[int](roomy(seqOf(n.Args[0].val(env), n.N)))
+		var r fp.Future[fp.Seq[int]]
 		if n.Fam == "TraverseSeq" {
-			return future.Map(future.TraverseSeq(elems, elemBody, ex...), fold(k))
+			r = future.TraverseSeq(elems, elemBody, ex...)
+		} else {
+			r = future.TraverseSeqFunc(elemBody, ex...)(elems)
 		}
-		return future.Map(future.TraverseSeqFunc(elemBody, ex...)(elems), fold(k))
+		b.tamperInts(n, env, own(b, n, elems), nil)
+		return future.Map(r, fold(k))
 	case "TraverseSlice", "TraverseSliceFunc":
-		elems := seqOf(n.Args[0].val(env), n.N)
-		f := func(s []int) int { return w31(k, s...) }
+		elems := roomy(seqOf(n.Args[0].val(env), n.N))
+		var r fp.Future[[]int]
 		if n.Fam == "TraverseSlice" {
-			return future.Map(future.TraverseSlice(elems, elemBody, ex...), f)
+			r = future.TraverseSlice(elems, elemBody, ex...)
+		} else {
+			r = future.TraverseSliceFunc(elemBody, ex...)(elems)
 		}
-		return future.Map(future.TraverseSliceFunc(elemBody, ex...)(elems), f)
+		b.tamperInts(n, env, own(b, n, elems), nil)
+		return future.Map(r, func(s []int) int { return w31(k, s...) })
 	case "iterator.FoldFuture", "seq.FoldFuture", "list.FoldFuture":
-		elems := seqOf(n.Args[0].val(env), n.N)
 		fn := func(acc, v int) fp.Future[int] { return b.body(n, 0, env, acc, v) }
 		switch n.Fam {
 		case "iterator.FoldFuture":
-			return iterator.FoldFuture(iterator.FromSeq(elems), k, fn, ex...)
+			sh, it := newShared(seqOf(n.Args[0].val(env), n.N))
+			r := iterator.FoldFuture(it, k, fn, ex...)
+			sh, it = ownIter(b, n, sh, it)
+			b.tamperIntIter(n, env, sh, it)
+			return r
 		case "seq.FoldFuture":
-			return seq.FoldFuture(elems, k, fn, ex...)
+			elems := roomy(seqOf(n.Args[0].val(env), n.N))
+			r := seq.FoldFuture(elems, k, fn, ex...)
+			b.tamperInts(n, env, own(b, n, elems), nil)
+			return r
 		}
-		return list.FoldFuture(list.FromSlice(elems), k, fn, ex...)
+		elems := roomy(seqOf(n.Args[0].val(env), n.N))
+		l := list.FromSlice(elems)
+		r := list.FoldFuture(l, k, fn, ex...)
+		if b.onClone && n.Cap != 0 {
+			elems = roomy(elems)
+			l = list.FromSlice(elems)
+		}
+		b.tamperInts(n, env, elems, l)
+		return r
 	case "Applicative":
 		return b.genApplicative(n, env)
 	case "Chain":
